@@ -304,9 +304,12 @@ def check_interpreters(ctx, rule: str) -> None:
             raise AnalysisError(f"{rule}: {what} cannot be evaluated: {exc}")
 
     # ---- text form
+    e_ = NameN("e")
+    deep = [AND(e_, OR(AND(a, b), AND(c, d))), OR(e_, AND(OR(a, b), OR(c, d))), AND(OR(AND(a, b), AND(c, d)), e_), OR(AND(OR(a, b), OR(c, d)), e_),
+            AND(e_, OR(AND(a, b), c)), AND(e_, OR(a, AND(c, d))), OR(AND(e_, OR(AND(a, b), AND(c, d))), a), AND(OR(AND(a, OR(b, c)), AND(d, e_)), b)]
     bad = None
     n = 0
-    for t in trees[:10]:
+    for t in trees[:10] + deep:
         interp()
         g = GPRN(t)
         got = evaluate(f"to_string of {show(t)}", lambda: g.to_string())
